@@ -182,17 +182,6 @@ pub async fn ignores(args: &Args, vcs_types: &[ProjectType]) -> Result<Vec<Ignor
 		"combined and applied overall vcs filter over ignores"
 	);
 
-	ignores.extend(args.filtering.ignore_files.iter().map(|ig| IgnoreFile {
-		applies_to: None,
-		applies_in: None,
-		path: ig.clone(),
-	}));
-	debug!(
-		?ignores,
-		?args.filtering.ignore_files,
-		"combined with ignore files from command line / env"
-	);
-
 	if args.filtering.no_project_ignore {
 		ignores = ignores
 			.into_iter()
@@ -223,6 +212,18 @@ pub async fn ignores(args: &Args, vcs_types: &[ProjectType]) -> Result<Vec<Ignor
 			.collect::<Vec<_>>();
 		debug!(?ignores, "filtered ignores to exclude VCS-specific ignores");
 	}
+
+	// explicitly given ignore files are honoured whatever the discovery flags say
+	ignores.extend(args.filtering.ignore_files.iter().map(|ig| IgnoreFile {
+		applies_to: None,
+		applies_in: None,
+		path: ig.clone(),
+	}));
+	debug!(
+		?ignores,
+		?args.filtering.ignore_files,
+		"combined with ignore files from command line / env"
+	);
 
 	info!(files=?ignores.iter().map(|ig| ig.path.as_path()).collect::<Vec<_>>(), "found some ignores");
 	Ok(ignores)
